@@ -379,6 +379,11 @@ var c15Shapes = []string{
 	"JSIGHT 0.3\nTYPE @p\n  {\n    \"q\": @q // {optional: true}\n  }\nTYPE @q\n  {\n    \"p\": @p // {optional: true}\n  }\nGET /p\n  200 @p\nGET /q\n  200 @q\n",
 	// allOf, enum used by a type, tags
 	"JSIGHT 0.3\nENUM @colors\n  [\"r\", \"g\"]\nTYPE @base\n  {\"c\": \"r\" // {enum: @colors}\n  }\nTYPE @derived\n  { // {allOf: \"@base\"}\n    \"d\": 1\n  }\nTAG @t1\nTAG @t2 // Two\nURL /u\n  GET\n    Tags @t2 @t1\n    200 @derived\n  POST\n    200 @base\nGET /v/{id}\n  Path\n  {\"id\": @idt}\n  200 any\nTYPE @idt\n  5\nSERVER @s1\n  BaseUrl \"http://a\"\nSERVER @s2\n  BaseUrl \"http://b\"\nINFO\n  Title \"T\"\n",
+	// a type whose dependency uses an enum; enum, dependency and user in every order
+	"JSIGHT 0.3\nENUM @colors\n  [\"r\", \"g\"]\nTYPE @b\n  {\n    \"c\": \"r\" // {enum: @colors}\n  }\nTYPE @a\n  {\"b\": @b}\nGET /ab\n  200 @a\n",
+	"JSIGHT 0.3\nENUM @e1\n  [1, 2]\nTYPE @leaf\n  {\n    \"v\": 1 // {enum: @e1}\n  }\nTYPE @mid\n  {\"l\": @leaf}\nTYPE @top\n  {\"m\": @mid, \"arr\": [@leaf]}\n",
+	// a TAG with a Description, used by interactions written before and after it
+	"JSIGHT 0.3\nGET /cats\n  Tags @pets\n  200 any\nTAG @pets // Pets\n  Description\n    all about pets\nURL /rpc\n  Protocol json-rpc-2.0\n  Method listPets\n    Tags @pets\n    Params\n      {}\nGET /dogs\n  Tags @pets\n  200 any\n",
 	// or-shortcut and regex types, json-rpc
 	"JSIGHT 0.3\nTYPE @u\n  @v | @w\nTYPE @v regex\n  /a+/\nTYPE @w\n  \"s\"\nURL /rpc\n  Protocol json-rpc-2.0\n  Method m\n    Params\n      {\"u\": @u}\nGET /rpc2\n  200 @u\n",
 }
